@@ -9,7 +9,7 @@ one() {
   [ -z "$(echo $und | tr -d ' ')" ] && return
   set=$(dirname $p); f=$(basename $p)
   d=$(mktemp -d /var/tmp/ur.XXXXXX)
-  git -C /repo archive HEAD rl_blox | tar -x -C $d
+  git -C /repo archive HEAD | tar -x -C $d
   (cd $d && patch -p1 -s < /tmp/$set/out/$f >/dev/null 2>&1)
   for c in $und; do
     python3-vt -m rlxcheck -p $c --tier quick --no-evidence --repo $d 2>&1 | grep "^ANALYSIS-ERROR\|^note: analysis incomplete" | sed "s/^ANALYSIS-ERROR property=C[0-9]* //; s/^note: analysis incomplete (rule group undecided): //" | tr ';' '\n' | sed "s#^#$p $c: #" | cut -c1-260
